@@ -20,70 +20,45 @@ Proof. reflexivity. Qed.
 Lemma user_is_names n dom u : user_is n dom u = true -> u_name u = n /\ u_domain u = dom.
 Proof. unfold user_is. rewrite andb_true_iff, !str_eqb_eq. tauto. Qed.
 
-Lemma user_exists_same_local d n dom : user_exists d n dom = true -> same_local_elsewhere d n = true.
-Proof.
-  unfold user_exists, same_local_elsewhere. rewrite !existsb_exists.
-  intros [u [Hin Hu]]. exists u. split; [exact Hin|].
-  apply user_is_names in Hu as [-> _]. apply str_eqb_refl.
-Qed.
-
 (** one address that passed the recipient-count test *)
 Lemma rcpt_addr_agree cfg d rec a :
-  (dom_test cfg a = false -> classify_addr cfg d a = None) ->
   rcpt_ok (fst (handle_rcpt_addr cfg d rec a)) = none_b (spec_rcpt_rest cfg d a) /\
   snd (handle_rcpt_addr cfg d rec a) = if none_b (spec_rcpt_rest cfg d a) then rec ++ [a] else rec.
 Proof.
-  unfold handle_rcpt_addr, spec_rcpt_rest, dom_test, domain_listed, known, classify_addr,
-         check_recipient_exists, extract_domain, extract_local_part.
-  change (check_user_exists d) with (same_local_elsewhere d).
+  unfold handle_rcpt_addr, spec_rcpt_rest, dom_test, domain_listed, known,
+         check_recipient_exists, extract_domain, extract_local_part, role_mailbox_exists.
+  change (get_role_mailbox_by_email d a) with (is_role d a).
   destruct (extract_parts a) as [[n dom]|]; cbn [option_map fst snd].
-  - pose proof (user_exists_same_local d n dom) as US.
+  - change (get_user_by_username d n dom) with (user_enabled d n dom).
     destruct (allowed_domains cfg) as [|a0 al] eqn:EA.
-    + destruct (reject_unknown_user cfg); cbn [andb none_b fst snd].
-      * destruct (is_role d a), (user_exists d n dom), (same_local_elsewhere d n);
-          cbn [negb andb orb none_b fst snd rcpt_ok]; intros H; try (split; reflexivity);
-          try (specialize (H eq_refl); discriminate); try (specialize (US eq_refl); discriminate).
-      * intros _. split; reflexivity.
-    + set (L := existsb (str_eqb dom) (a0 :: al)). destruct L; cbn [negb].
-      * destruct (reject_unknown_user cfg); cbn [andb none_b fst snd].
-        -- destruct (is_role d a), (user_exists d n dom), (same_local_elsewhere d n);
-             cbn [negb andb orb none_b fst snd rcpt_ok]; intros H; try (split; reflexivity);
-             try (specialize (H eq_refl); discriminate); try (specialize (US eq_refl); discriminate).
-        -- intros _. split; reflexivity.
-      * intros _. split; reflexivity.
+    + destruct (reject_unknown_user cfg); cbn [andb none_b fst snd]; [|split; reflexivity].
+      destruct (is_role d a), (user_enabled d n dom); cbn; split; reflexivity.
+    + set (L := existsb (str_eqb dom) (a0 :: al)). destruct L; cbn [negb]; [|split; reflexivity].
+      destruct (reject_unknown_user cfg); cbn [andb none_b fst snd]; [|split; reflexivity].
+      destruct (is_role d a), (user_enabled d n dom); cbn; split; reflexivity.
   - destruct (allowed_domains cfg) as [|a0 al] eqn:EA; cbn [negb].
-    + destruct (reject_unknown_user cfg); intros _; split; reflexivity.
-    + intros _. split; reflexivity.
+    + destruct (reject_unknown_user cfg); split; reflexivity.
+    + split; reflexivity.
 Qed.
 
 Lemma rcpt_phase cfg d : forall addrs rec,
-  classify_rcpts cfg d (Z.of_nat (length rec)) addrs = None ->
   map rcpt_ok (fst (handle_rcpts_addr cfg d rec addrs))
     = map none_b (spec_rcpts cfg d (Z.of_nat (length rec)) addrs) /\
   snd (handle_rcpts_addr cfg d rec addrs)
     = rec ++ accepted_of addrs (spec_rcpts cfg d (Z.of_nat (length rec)) addrs).
 Proof.
-  induction addrs as [|a rest IH]; intros rec HC.
+  induction addrs as [|a rest IH]; intros rec.
   - cbn. now rewrite app_nil_r.
-  - cbn [handle_rcpts_addr spec_rcpts classify_rcpts] in *.
+  - cbn [handle_rcpts_addr spec_rcpts].
     rewrite spec_rcpt_unfold.
     destruct (max_recipients cfg <=? Z.of_nat (length rec)) eqn:EL.
     + destruct (handle_rcpts_addr cfg d rec rest) as [rs fin] eqn:ER.
-      specialize (IH rec HC). rewrite ER in IH. destruct IH as [IH1 IH2].
+      specialize (IH rec). rewrite ER in IH. destruct IH as [IH1 IH2].
       cbn [fst snd map none_b accepted_of rcpt_ok] in *. split; [now f_equal | exact IH2].
-    + fold (dom_test cfg a) in HC.
-      assert (HA : dom_test cfg a = false -> classify_addr cfg d a = None).
-      { intros E. rewrite E in HC. destruct (classify_addr cfg d a); [discriminate | reflexivity]. }
-      destruct (rcpt_addr_agree cfg d rec a HA) as [A1 A2].
+    + destruct (rcpt_addr_agree cfg d rec a) as [A1 A2].
       destruct (handle_rcpt_addr cfg d rec a) as [r rec'] eqn:EH. cbn [fst snd] in A1, A2.
-      assert (HC' : classify_rcpts cfg d (Z.of_nat (length rec')) rest = None).
-      { subst rec'. unfold spec_rcpt_rest in *.
-        destruct (dom_test cfg a) eqn:ED; cbn [none_b] in *; [exact HC|].
-        destruct (classify_addr cfg d a); [discriminate|].
-        destruct (reject_unknown_user cfg && negb (known d a)); cbn [none_b] in *; [exact HC|].
-        rewrite app_length, Nat2Z.inj_add. exact HC. }
       destruct (handle_rcpts_addr cfg d rec' rest) as [rs fin] eqn:ER.
-      specialize (IH rec' HC'). rewrite ER in IH. destruct IH as [IH1 IH2].
+      specialize (IH rec'). rewrite ER in IH. destruct IH as [IH1 IH2].
       cbn [fst snd] in *.
       destruct (spec_rcpt_rest cfg d a) as [w|] eqn:ES; cbn [none_b] in *; subst rec'.
       * cbn [map none_b accepted_of]. split; [now rewrite A1, IH1 | exact IH2].
